@@ -39,6 +39,81 @@ func checkC04(c AttackCase) h.Outcome {
 	return o
 }
 
+// C04.nostore: a service provider WITHOUT an IdP certificate store and with signature checking ON can verify
+// nothing: no SSO Response may be accepted (every acceptance needs a verified signature), a logout message only
+// with its indicator false. The signature library dereferences the store when it meets a signature; a panic there
+// is a refusal as far as this property goes (C09 quantifies over configurations that supply a store).
+func genC04NoStore(t *rapid.T) AttackCase {
+	c := genAttackCase(t, attackOpts{maxOps: 2,
+		opKinds: []string{"edit-text", "strip-sig", "strip-sig", "strip-sig", "move-sig", "dup-el", "forge-assertion", "comment-trick", "encrypt"}})
+	c.SP.NoStore, c.SP.Store = true, nil
+	return c
+}
+
+func checkC04NoStore(c AttackCase) h.Outcome {
+	o := h.Outcome{NonTrivial: true}
+	c.classes(&o)
+	o.NonTrivial = true
+	if c.SP.Skip || !c.SP.NoStore {
+		o.Violation = h.V("harness/nostore-config", "C04.nostore needs validation on and no store")
+		return o
+	}
+	call := func(name string, f func() (accepted bool, flags []bool)) *h.Violation {
+		var acc bool
+		var flags []bool
+		if pv := h.Guard(func() { acc, flags = f() }); pv != nil {
+			o.Classes = append(o.Classes, name+":panic")
+			return nil
+		}
+		if !acc {
+			o.Classes = append(o.Classes, name+":rejected")
+			return nil
+		}
+		o.Classes = append(o.Classes, name+":accepted")
+		if flags == nil {
+			return h.V("accepted-without-store/"+name, "%s accepted a message although signature checking is on and there is no certificate to check against (notes %v)", name, c.Notes)
+		}
+		for _, f := range flags {
+			if f {
+				return h.V("flag-without-store/"+name, "%s reports a verified signature although there is no certificate store (notes %v)", name, c.Notes)
+			}
+		}
+		return nil
+	}
+	vs := []*h.Violation{
+		call("ValidateEncodedResponse", func() (bool, []bool) {
+			_, err := c.SP.Build().ValidateEncodedResponse(c.Encoded)
+			return err == nil, nil
+		}),
+		call("RetrieveAssertionInfo", func() (bool, []bool) { _, err := c.SP.Build().RetrieveAssertionInfo(c.Encoded); return err == nil, nil }),
+		call("ValidateEncodedLogoutRequestPOST", func() (bool, []bool) {
+			r, err := c.SP.Build().ValidateEncodedLogoutRequestPOST(c.Encoded)
+			if err != nil {
+				return false, nil
+			}
+			return true, []bool{r.SignatureValidated}
+		}),
+		call("ValidateEncodedLogoutResponsePOST", func() (bool, []bool) {
+			r, err := c.SP.Build().ValidateEncodedLogoutResponsePOST(c.Encoded)
+			if err != nil {
+				return false, nil
+			}
+			return true, []bool{r.SignatureValidated}
+		}),
+	}
+	for _, v := range vs {
+		if v != nil {
+			o.Violation = v
+			break
+		}
+	}
+	o.Classes = dedup(o.Classes)
+	return o
+}
+
+func TestC04_PNoStore(t *testing.T)      { h.RunProp(t, "C04.nostore", genC04NoStore, checkC04NoStore) }
+func TestC04_ReplayNoStore(t *testing.T) { h.RunReplay(t, "C04.nostore", checkC04NoStore) }
+
 func TestC04(t *testing.T)        { h.RunProp(t, "C04", genC04, checkC04) }
 func TestC04_Replay(t *testing.T) { h.RunReplay(t, "C04", checkC04) }
 
